@@ -57,7 +57,7 @@ impl<'a> Gen<'a> {
         } else {
             let mut s = hostile_string(self.rng, 1, 6, true);
             if self.rng.chance(1, 4) {
-                s.push_str(*self.rng.pick(&["a<b", "x & y", "\"q\"", "1<2>3", "&amp;", "<script>", "\u{a0}", "]]>"]));
+                s.push_str(*self.rng.pick(&["a<b", "x & y", "\"q\"", "1<2>3", "&amp;", "<script>", "\u{a0}", "]]>", "a\u{226e}b", "\u{ff1c}b\u{ff06}", "\u{fb01}n"]));
             }
             s
         }
@@ -548,14 +548,37 @@ impl C19 {
                 .set("output", J::s(trunc(out, 1200)))
                 .set("what", J::s(what))
         };
+        // entry points: string / Write based, with and without a normalizer that really changes text
+        let entry = rng.below(6);
+        let with_norm = entry >= 4;
+        let plain_params = !indent && cdata_q.is_empty();
+        let from_bytes = |r: Result<(), xot::Error>, v: Vec<u8>| r.map(|_| String::from_utf8_lossy(&v).into_owned());
         let r = guard(|| {
             let h = xot.html5();
-            if rng.bool() && !indent && cdata_q.is_empty() {
-                h.to_string(target)
-            } else {
-                h.serialize_string(params.clone(), target)
+            match entry {
+                0 if plain_params => h.to_string(target),
+                1 if plain_params => {
+                    let mut v = Vec::new();
+                    let r = h.write(target, &mut v);
+                    from_bytes(r, v)
+                }
+                2 => {
+                    let mut v = Vec::new();
+                    let r = h.serialize_write(params.clone(), target, &mut v);
+                    from_bytes(r, v)
+                }
+                4 => h.serialize_string_with_normalizer(params.clone(), target, TestNormalizer),
+                5 => {
+                    let mut v = Vec::new();
+                    let r = h.serialize_write_with_normalizer(params.clone(), target, &mut v, TestNormalizer);
+                    from_bytes(r, v)
+                }
+                _ => h.serialize_string(params.clone(), target),
             }
         });
+        ctx.count(&format!("entry_point.{}", ["to_string", "write", "serialize_write", "serialize_string", "serialize_string_with_normalizer", "serialize_write_with_normalizer"][entry]));
+        // what the tree looks like to a reader of the output
+        let sub = if with_norm { sub.map(|s| normalize_tree(&s)) } else { sub };
         ctx.count(&format!("serialised.{}", kind));
         let out = match r {
             Err(p) => {
